@@ -257,7 +257,7 @@ def model_request(T, Q, call):
         return 'c07_in_range', [trows(T), chrom, qs, qe, mode]
     if kind == 'in_ranges':
         _, chrom, starts, ends, mode = call
-        return 'c07_in_ranges', [trows(T), chrom, starts, ends, mode]
+        return 'c07_in_ranges_e', [trows(T), chrom, starts, ends, mode]
     return None, None
 
 
@@ -337,17 +337,35 @@ def expected(T, Q, call):
         return bf_select(rows, qs, qe, mode), None
     if kind == 'in_ranges':
         _, chrom, starts, ends, mode = call
-        rows = chrom_rows(T, chrom or None)
-        if starts is None and ends is None:
-            qs = [(None, None)]
-        elif starts is None:
-            qs = [(None, e) for e in ends]
-        elif ends is None:
-            qs = [(s, None) for s in starts]
-        else:
-            qs = list(zip(starts, ends))
-        return [r for a, b in qs for r in bf_select(rows, a, b, mode)], None
+        return expected_in_ranges(chrom_rows(T, chrom or None), starts, ends, mode), None
     raise RuntimeError(kind)
+
+
+def expected_in_ranges(rows, starts, ends, mode):
+    """in_ranges with every argument shape, as the code documents / behaves (independent restatement):
+    an empty table or no bound at all -> the whole table; a missing or EMPTY side is filled in (starts -> zeros,
+    ends -> open); on the mask path (ends of the rows not monotone) an empty starts with ends None is a TypeError
+    (len(None)) and lists of unequal length or no query at all fail the assertion; on the binary-search path the
+    lists are zipped (truncated to the shorter) and no query at all makes pd.concat raise ValueError."""
+    if not rows or (starts is None and ends is None):
+        return list(rows) if not rows else bf_select(rows, None, None, mode)
+    has_s = starts is not None and len(starts) > 0
+    has_e = ends is not None and len(ends) > 0
+    if not ends_monotone(rows):
+        if not has_s and ends is None:
+            return Err('TypeError')
+        ss = list(starts) if has_s else [0] * len(ends)
+        es = list(ends) if has_e else [None] * len(ss)
+        if len(ss) != len(es) or not ss:
+            return Err('AssertionError')
+    else:
+        ss = list(starts) if has_s else [0] * (len(ends) if ends is not None else 1)
+        es = list(ends) if has_e else [None] * len(ss)
+    qs = list(zip(ss, es))
+    if not qs:
+        return Err('ValueError')
+    # a filled-in start of 0 is "from the beginning" (rows live in [0, oo))
+    return [r for a, b in qs for r in bf_select(rows, a if (has_s or a) else None, b, mode)]
 
 
 # ----------------------------------------------------------------------------
@@ -429,8 +447,8 @@ def sorted_multisets(universe, kmax):
 
 def pair_calls(T, Q, rot=0, full=True, light=False):
     """the pair-level calls.  full: every entry point x mode x keep_empty (+ one rotating into_ranges variant);
-    light (quick tier): by_ranges in all modes with keep_empty on, intersection in all modes, into_ranges on the three
-    column types, and -- rotating over the pairs -- by_ranges with keep_empty off, iter_ranges_of (inner/outer, either
+    light (quick tier): by_ranges in all modes with keep_empty on, intersection in all modes, into_ranges on two of the three
+    column types (rotating), and -- rotating over the pairs -- by_ranges with keep_empty off, iter_ranges_of (inner/outer, either
     keep_empty; trim every third pair: it makes three by_ranges passes);
     not full: by_ranges in all modes (keep_empty alternating) plus one rotating other call"""
     into = [('into', 'gene', '-', None), ('into', 'x', -1.0, None), ('into', 'n', -5, None)]
@@ -448,7 +466,9 @@ def pair_calls(T, Q, rot=0, full=True, light=False):
                  + [('iter_ranges_of', 'outer', bool(rot % 2)), ('iter_ranges_of', 'inner', not (rot % 2))])
         if rot % 3 == 0:
             calls.append(('iter_ranges_of', 'trim', bool((rot // 3) % 2)))
-        return calls + into + [extra[rot % len(extra)]]
+        # two of the three column types per pair, rotating (every type default is also run on typed, mixed and missing
+        # columns by into_full_check)
+        return calls + [into[rot % 3], into[(rot + 1) % 3]] + [extra[rot % len(extra)]]
     rest = ([('intersection', m) for m in MODES] + [('iter_ranges_of', m, ke) for m in MODES for ke in (True, False)] + into)
     return [('by_ranges', m, bool((rot + i) % 2)) for i, m in enumerate(MODES)] + [rest[rot % len(rest)]]
 
@@ -509,7 +529,26 @@ def exhaustive_table_units(maxc, nrows, nq):
                 if not rows and chrom is None:
                     chrom = 'a'
                 # in_range is a function of (table, query): called where the list has <= 1 query
-                units.append((T, None, table_calls(T, chrom, list(qs), nonevariants=(k <= 2), single=(k <= 1))))
+                units.append((T, None, table_calls(T, chrom, list(qs), nonevariants=(k <= 1 or (k == 2 and len(units) % 3 == 0)), single=(k <= 1))))
+    return units
+
+
+ERR_SHAPES = [([], []), (None, []), ([], None), ([1, 2], [4]), ([1], [4, 8]), ([], [4]), ([1], []), ([0, 2, 3], [2, 4]),
+              ([2], [1, 3, 5]), ([0], [0]), ([3, 1], [4, 2])]
+
+
+def error_units(thorough):
+    """in_ranges with empty query lists and starts / ends of unequal length on every sorted table of <= 2 (<= 3) rows
+    over 0..4 (both index paths: nested and not), all modes; the chromosome given by name or left out"""
+    universe = [('a', a, b) for (a, b) in intervals(4)]
+    units = []
+    for rows in sorted_multisets(universe, 3 if thorough else 2):
+        T = table(rows)
+        chrom = 'a' if (len(units) % 3) else None
+        units.append((T, None, [('in_ranges', chrom, s_, e_, m) for m in MODES for (s_, e_) in ERR_SHAPES]))
+    # three-row nested tables (the mask path with more than one nested row)
+    for rows in ([('a', 0, 10), ('a', 1, 2), ('a', 3, 4)], [('a', 0, 9), ('a', 0, 3), ('a', 2, 12)], [('a', 1, 5), ('a', 1, 3), ('a', 4, 5)]):
+        units.append((table(rows), None, [('in_ranges', 'a', s_, e_, m) for m in MODES for (s_, e_) in ERR_SHAPES]))
     return units
 
 
@@ -669,6 +708,184 @@ def searchsorted_check(ck, count):
             ck.tie_break('model binary search differs from numpy', {'side': s, 'arr': a, 'keys': k}, code=code, model=m)
 
 
+def cell_of(v):
+    """python value -> wire cell"""
+    import numpy as np
+    if isinstance(v, (bool, np.bool_)):
+        return ['b', bool(v)]
+    if isinstance(v, (int, np.integer)):
+        return ['i', int(v)]
+    if isinstance(v, (float, np.floating)):
+        v = float(v)
+        return ['f', None if v != v else Fraction(v)]
+    if isinstance(v, str):
+        return ['s', v]
+    raise RuntimeError('no cell for %r' % (v,))
+
+
+def cell_same(code, model):
+    """code: a python value out of the result Series; model: a wire cell.  pandas re-types the result list (an int among
+    floats becomes a float, a missing value in a bool/int list NaN), so numbers are compared by value."""
+    import numpy as np
+    kind, mv = model
+    if isinstance(code, (bool, np.bool_)):
+        return (kind == 'b' and bool(code) == mv) or (kind in ('i', 'f') and mv is not None and float(mv) == float(code))
+    if isinstance(code, str):
+        return kind == 's' and code == mv
+    if code is None or (isinstance(code, (float, np.floating)) and code != code):
+        return kind == 'f' and mv is None
+    if isinstance(code, (int, float, np.integer, np.floating)):
+        if kind == 'b':
+            return float(code) == (1.0 if mv else 0.0)
+        return kind in ('i', 'f') and mv is not None and vlib.close(float(code), Fraction(mv))
+    return False
+
+
+def into_full_check(ck, count):
+    """into_ranges with every kind of summary_func on every kind of column: None (type default chosen by the FIRST element:
+    str -> join_strings, float -> nanmedian, else first_of), a callable (len), a non-callable (constant) of the column's
+    or of another type; a missing column; an object column of mixed types (first_of, or TypeError from join_strings)."""
+    import numpy as np, pandas as pd
+    rng = ck.rng
+    cases = []
+    for i in range(count):
+        tc = rng.sample(CHROMS, rng.randint(1, 2))
+        qc = tc if rng.random() < 0.7 else rng.sample(CHROMS, rng.randint(1, 2))
+        T = rand_table(rng, tc, False, rng.choice([None, 'perm']))
+        Q = rand_table(rng, qc, False)
+        if rng.random() < 0.08:
+            T = table([])
+        if rng.random() < 0.05:
+            Q = table([])
+        colkind = rng.choice(['gene', 'x', 'n', 'flag', 'mixed_s', 'mixed_i', 'missing'])
+        if colkind == 'gene':
+            vals = list(T['gene'])
+        elif colkind == 'x':
+            vals = [float(v) for v in T['x']]
+        elif colkind == 'n':
+            vals = list(T['n'])
+        elif colkind == 'flag':
+            vals = [bool(v % 2) for v in T['n']]
+        elif colkind == 'mixed_s':
+            vals = [(g if j % 2 == 0 else n) for j, (g, n) in enumerate(zip(T['gene'], T['n']))]
+        elif colkind == 'mixed_i':
+            vals = [(n if j % 2 == 0 else g) for j, (g, n) in enumerate(zip(T['gene'], T['n']))]
+        else:
+            vals = list(T['n'])
+        default = rng.choice(['-', -1.0, -5, NAN, True])
+        summ = rng.choice([None, None, None, 'len', ('const', 'K'), ('const', 7), ('const', 2.5), ('const', False)])
+        cases.append((T, Q, colkind, vals, default, summ))
+    reqs = []
+    for T, Q, colkind, vals, default, summ in cases:
+        column = [[lab, cell_of(v)] for lab, v in zip(T['labels'], vals)]
+        f = None if summ is None else ('len' if summ == 'len' else ['const', cell_of(summ[1])])
+        reqs.append([colkind != 'missing', trows(T), trows(Q), column, cell_of(default), f])
+    model = vlib.model_batch_parallel('c07_into_full', reqs)
+    for (T, Q, colkind, vals, default, summ), m in zip(cases, model):
+        ga_t, ga_q = build_ga(T), build_ga(Q)
+        colname = 'v'
+        if colkind != 'missing':
+            ga_t.data[colname] = pd.Series(vals, index=ga_t.data.index, dtype=(object if colkind.startswith('mixed') else None))
+        f = None if summ is None else (len if summ == 'len' else summ[1])
+        try:
+            res = ga_t.into_ranges(ga_q, colname, default, f)
+            code = Err('returns dest') if isinstance(res, pd.DataFrame) else list(res)
+        except Exception as e:   # noqa
+            code = Err(type(e).__name__)
+        case = {'table': T, 'other': Q, 'column': colkind, 'values': [repr(v) for v in vals], 'default': repr(default), 'summary': repr(summ)}
+        # independent expectation
+        colv = dict(zip(T['labels'], vals))
+        exp = []
+        if colkind == 'missing':
+            exp = [default] * len(Q['rows'])
+        elif not Q['rows']:
+            exp = Err('returns dest')
+        elif not T['rows']:
+            exp = [default] * len(Q['rows'])
+        else:
+            first = vals[0]
+            for qlab, hits in bf_answers(T, Q, 'outer'):
+                hv = [colv[h[0]] for h in hits]
+                if len(hv) == 0:
+                    exp.append(default)
+                elif len(hv) == 1:
+                    exp.append(hv[0])
+                elif summ == 'len':
+                    exp.append(len(hv))
+                elif summ is not None:
+                    exp.append(summ[1])
+                elif isinstance(first, str):
+                    if not all(isinstance(v, str) for v in hv):
+                        exp = Err('TypeError')
+                        break
+                    exp.append(','.join(distinct(hv)))
+                elif isinstance(first, float):
+                    md = exact_median(hv)
+                    exp.append(NAN if md is None else float(md))
+                else:
+                    exp.append(hv[0])
+        nt = isinstance(exp, list) and len(exp) > 0
+        ck.count(case, nontrivial=nt, cls='into_full:%s' % colkind)
+
+        def agree(code, other, cells):
+            if isinstance(code, Err) or isinstance(other, Err):
+                return code == other
+            if len(code) != len(other):
+                return False
+            if cells:
+                return all(cell_same(c, o) for c, o in zip(code, other))
+            return all(cell_same(c, cell_of(o)) for c, o in zip(code, other))
+        mm = m
+        if isinstance(m, list) and any(isinstance(x, Err) for x in m):
+            mm = Err('TypeError')
+        if not agree(code, exp, False):
+            ck.violation('into_ranges does not return default / the value / the summary chosen by the column type or the given '
+                         'function / constant', case, code=repr(code), expected=repr(exp), model=repr(mm), clause='C07_into_full')
+            continue
+        if not agree(code, mm, True):
+            ck.tie_break('model of into_ranges (dynamic cells) differs from the code', case, code=repr(code), model=repr(mm))
+
+
+def loc_check(ck, count):
+    """the label / position bridge: DataFrame.loc[labels] and .iloc[positions] against rows_loc / rows_iloc, on default,
+    permuted (unique) and repeated labels"""
+    import pandas as pd
+    rng = ck.rng
+    cases = []
+    for _ in range(count):
+        n = rng.randint(0, 8)
+        mode = rng.choice(['default', 'perm', 'gaps', 'dups'])
+        if mode == 'default':
+            labels = list(range(n))
+        elif mode == 'perm':
+            labels = rng.sample(range(0, 2 * n + 2), n)
+        elif mode == 'gaps':
+            labels = sorted(rng.sample(range(0, 3 * n + 3), n))
+        else:
+            labels = [rng.randint(0, max(1, n // 2)) for _ in range(n)]
+        rows = [[lab, 10 * i, 10 * i + 5] for i, lab in enumerate(labels)]
+        want = [rng.choice(labels) for _ in range(rng.randint(0, 5))] if labels else []
+        pos = [rng.randint(0, n - 1) for _ in range(rng.randint(0, 5))] if n else []
+        cases.append((mode, rows, want, pos))
+    mloc = vlib.model_batch('c07_loc', [[r, w] for _, r, w, _ in cases])
+    miloc = vlib.model_batch('c07_iloc', [[r, p_] for _, r, _, p_ in cases])
+    for (mode, rows, want, pos), ml, mi in zip(cases, mloc, miloc):
+        df = pd.DataFrame({'rid': [r[0] for r in rows], 'start': [r[1] for r in rows], 'end': [r[2] for r in rows]},
+                          index=pd.Index([r[0] for r in rows], dtype='int64'))
+        a = df.loc[want] if want else df.iloc[:0]
+        b = df.iloc[pos] if pos else df.iloc[:0]
+        code_loc = [[int(x), int(y), int(z)] for x, y, z in zip(a['rid'], a['start'], a['end'])]
+        code_iloc = [[int(x), int(y), int(z)] for x, y, z in zip(b['rid'], b['start'], b['end'])]
+        ck.count(['loc', mode, rows, want, pos], nontrivial=bool(want or pos), cls='labels:%s' % mode)
+        if code_loc != [list(x) for x in ml]:
+            ck.tie_break('model label lookup (rows_loc) differs from DataFrame.loc', {'rows': rows, 'labels': want}, code=code_loc, model=ml)
+        if code_iloc != [list(x) for x in mi]:
+            ck.tie_break('model positional lookup (rows_iloc) differs from DataFrame.iloc', {'rows': rows, 'positions': pos}, code=code_iloc, model=mi)
+        if mode == 'default' and want and code_loc != [rows[w] for w in want]:
+            ck.violation('with default labels a label lookup is not the positional lookup', {'rows': rows, 'labels': want},
+                         code=code_loc, expected=[rows[w] for w in want], clause='C07_labels')
+
+
 def summary_check(ck, count):
     """join_strings / nanmedian models against the oracle"""
     strs, flts = [], []
@@ -732,16 +949,21 @@ def run(ck, scratch):
                'the coordinate scope on one chromosome (single-chromosome shortcut) and on two chromosomes (a reduced scope, see '
                'coverage.exhaustive_scope), each with by_ranges / intersection / iter_ranges_of x 3 modes x keep_empty and '
                'into_ranges on a string, a float and an integer column; every single table x ordered query list with in_range / '
-               'in_ranges x 3 modes x None bounds; random large tables (tiling / nested / duplicated / abutting rows, permuted index '
+               'in_ranges x 3 modes x None bounds (the None-bound variants of two-element lists on every third list); random large tables (tiling / nested / duplicated / abutting rows, permuted index '
                'labels, NaN values, chromosome missing on either side, empty tables, single-chromosome fast path) with queries placed '
                'on the rows\' own boundaries; an edge stream (unsorted rows, interleaved chromosomes, zero-width rows, chrom=None on '
-               'several chromosomes) compared model-vs-code only; numpy searchsorted vs the model binary search on arbitrary arrays. '
+               'several chromosomes) compared model-vs-code only; numpy searchsorted vs the model binary search on arbitrary arrays; in_ranges with empty '
+               'query lists and starts / ends of unequal length on every small table (error outcomes TypeError / AssertionError / ValueError as values of the model); '
+               'into_ranges with dynamically typed columns (str / float / int / bool / mixed object / missing) x summary None / callable / constant; '
+               'DataFrame.loc / .iloc vs the model label and position lookups on default, permuted, gapped and repeated labels. '
                'non-trivial = the expected selection is not empty; distinct by case hash')
     ck.exhaustive = True
     ck.explanation = 'exhaustive: true refers to the enumerated scopes listed in coverage.exhaustive_scope'
     ck.unproved_remainder = [
-        'pandas/numpy internals (groupby order, searchsorted, label-based .loc/.iloc, clip) are exercised, not proved',
-        'empty query lists and starts/ends of unequal length (assertion / pandas errors) are outside the model',
+        'pandas/numpy internals (groupby order, searchsorted, label-based .loc/.iloc, clip, the re-typing of the result list by '
+        'pd.Series) are exercised, not proved; the label lookup itself is modelled (rows_loc / rows_iloc) and compared with DataFrame.loc / .iloc',
+        'a column whose label occurs twice in the source table (the model reads the column as a function of the label) and user summary '
+        'functions that raise are outside the model of into_ranges',
     ]
     if not ck.build_status.get('driver_ok'):
         raise RuntimeError('model driver unavailable')
@@ -754,12 +976,16 @@ def run(ck, scratch):
 
     searchsorted_check(ck, 2000 if quick else 40000)
     summary_check(ck, 300 if quick else 5000)
+    into_full_check(ck, 400 if quick else 6000)
+    loc_check(ck, 400 if quick else 6000)
+    uerr = error_units(not quick)
+    J.run(uerr, workers, 'errors')
 
     scope = []
     # (A) one chromosome, direct calls: the single-chromosome shortcut of by_shared_chroms
     ua, _, _ = exhaustive_units(4, 2, 2 if quick else 3, ['a'], full=True, light=quick)
     scope.append('1 chromosome: all sorted tables (<=2 rows) x sorted query tables (<=%d) over 0..4, %s: %d pairs'
-                 % (2 if quick else 3, 'by_ranges x 3 modes (keep_empty on), intersection x 3, into_ranges x 3 column types on every '
+                 % (2 if quick else 3, 'by_ranges x 3 modes (keep_empty on), intersection x 3, into_ranges on two of the three column types (rotating) on every '
                     'pair; keep_empty off / iter_ranges_of rotating over the pairs' if quick else 'every pair-level call', len(ua)))
     J.run(ua, workers, 'exh1')
     spec_crosscheck(ua, 400)
